@@ -67,6 +67,7 @@ def regionOf {K : Type} : BSpec K → Option Loc
   | .rareCodons _ _ l => some l
   | .cai _ _ _ l => some l
   | .hairpins _ _ l => some l
+  | .rca _ _ _ _ l => some l
   | _ => none
 
 theorem findMatches_unchanged (p : Pattern) (l : Loc) (s t : Seq)
@@ -100,6 +101,7 @@ theorem evaluate_local {K : Type} [NumK K] (b : BSpec K) (l : Loc) (hb : regionO
   case rareCodons mf fr l' => subst hb; simp only [evaluate, hext]
   case cai lf lb ca l' => subst hb; simp only [evaluate, hext]
   case hairpins st w l' => subst hb; simp only [evaluate, evaluateHairpins, hext]
+  case rca rt ro og sm l' => subst hb; simp only [evaluate, hext]
 
 theorem overlap_ext_of_overlap (l w : Loc) (n : Int) (right : Bool) (hn : 0 ≤ n) (hl : l.Nonempty) (hw : w.Nonempty)
     (hw0 : 0 ≤ w.start) (h : l.overlap w ≠ none) : l.overlap (w.extended n 0 Option.none true right) ≠ none := by
@@ -200,6 +202,11 @@ theorem localized_none_disjoint {K : Type} [NumK K] (b : BSpec K) (l w : Loc) (r
     · assumption
     · simp at h
   case hairpins st wd l' =>
+    subst hb; simp only [localized] at h
+    split at h
+    · assumption
+    · simp at h
+  case rca rt ro og sm l' =>
     subst hb; simp only [localized] at h
     split at h
     · assumption
